@@ -470,13 +470,7 @@ func (fx *FnCtx) atCalls(st *State, key string, env *SpecEnv) {
 			continue
 		}
 		// evaluated in the caller's scope, with recv/argN (and callee parameter names) bound
-		cenv := &SpecEnv{fx: fx, st: st, old: fx.entry, vars: map[string]*Val{}, fn: fx.fn, useLocals: true, at: st.curPoint}
-		if fx.fn.Pkg != nil {
-			cenv.pkg = fx.fn.Pkg.Pkg
-		}
-		for n, v := range fx.params {
-			cenv.vars[n] = v
-		}
+		cenv := fx.fnEnv(st, st.curPoint)
 		for n, v := range env.vars {
 			if n == "recv" || strings.HasPrefix(n, "arg") {
 				cenv.vars[n] = v
